@@ -215,6 +215,11 @@ def shards(tier, seed):
     return out
 
 
+def shard_weight(desc):
+    # custom aliases parse nested selectors (several times more scheduling points); match operations are shorter than compiles
+    return sum(3 if o[2] else (2 if o[0] == 'compile' else 1) for o in pairs(desc[0])[desc[1]][0])
+
+
 def run_shard(desc):
     from .. import common
     sv = common.bind()
